@@ -703,16 +703,23 @@ Fixpoint minlen_u (t : tok) : nat :=
   | TParen t => minlen_u t
   end%nat.
 
+(** the scan loop [for (matchStart = fStart; matchStart <= fLimit - fMinLength; matchStart++)]: [run start] = match() from
+    [start]; [ok start] = the start lies within the bound (in UTF-16 units) *)
+Fixpoint search_go (run : nat -> mres) (ok : nat -> bool) (n : nat) (start : nat) : sres :=
+  if negb (ok start) then SNone else
+  match run start with
+  | MFuel => SDiverge
+  | MR (Some e) _ => SFound start e
+  | MR None _ => match n with O => SNone | S n' => search_go run ok n' (S start) end
+  end.
+
 Definition xsearch_tok (w : sw) (fuel : nat) (sl : bool) (t : tok) (s : list N) : sres :=
   (* if (context.fLimit < fMinLength) return false; *)
   if Nat.ltb (units_of s) (minlen_u t) then SNone else
   let (o, nclos) := compile w true t HNull 0 in
-  (fix go (n : nat) (start : nat) : sres :=
-     match omatch w true sl s fuel o (fun o' st' => MR (Some o') st') start (repeat None nclos) with
-     | MFuel => SDiverge
-     | MR (Some e) _ => SFound start e
-     | MR None _ => match n with O => SNone | S n' => go n' (S start) end
-     end) (length s) 0%nat.
+  search_go (fun start => omatch w true sl s fuel o (fun o' st' => MR (Some o') st') start (repeat None nclos))
+            (fun start => Nat.leb (units_of (firstn start s)) (units_of s - minlen_u t))
+            (length s) 0%nat.
 
 (** pattern text -> answer *)
 Inductive answer : Type := AParseError | ARuntime | AUnsupported | ACrash | AMatch (r : list xres).
